@@ -37,7 +37,7 @@ const (
 
 func TestMain(m *testing.M) {
 	vlib.Rule("C37: one fresh source volume (own collection) per history on a `weed master` + `weed volume` child pair; histories of 3-16 steps over 6 needle keys written in arbitrary key order: HTTP upload / overwrite (1-3000 B, rarely 2.3 MiB so that the copy stream needs more than one block; text or random, names/mimes that do or do not make the server compress, equal-size replacements frequent), re-upload of identical content, HTTP delete, vacuum through the master (/vol/vacuum?garbageThreshold=0.0001) and Backup = the real `weed backup -server -dir -volumeId -collection` process (1-4 per history, also back to back; the last step is always a backup). A second generator forces the shape writes,backup,changes,vacuum,changes,backup. Each history costs several process starts and the backup commands of all shards are serialised, so the thorough tier is deliberately small (300+130 histories) to stay within ~25 min on a loaded machine. Oracle after every backup: a copy of the backup directory is loaded by an in-process storage.Store (memory needle map) and every key of the universe must be not-found / found with byte-identical decoded content, file name, content type and last-modified exactly as the source volume server answers GET for it. Non-trivial = a backup after a source compaction, or a second backup after further writes/deletes.")
-	vlib.Assume("the backup is judged the way a volume server would serve it: loaded with storage.NewStore from a copy of the directory (the load itself may repair/truncate files, as it would in production); the source is judged by its HTTP answers; operations are strictly sequential (the master's periodic vacuum is switched off with -garbageThreshold=2, and a history whose source revision moves while a backup runs is abandoned without verdict); because `weed backup` preallocates a hard-coded 30 GiB for a locally compacted volume file, one backup command runs at a time per machine and the unwritten blocks beyond the end of the backup files are released after each run (file contents untouched); empty payloads (listed C03/C04 items) and TTL volumes are not generated")
+	vlib.Assume("the backup is judged the way a volume server would serve it: loaded with storage.NewStore from a copy of the directory (the load itself may repair/truncate files, as it would in production); the source is judged by its HTTP answers; operations are strictly sequential (the master's periodic vacuum is switched off with -garbageThreshold=2, and a history whose source revision moves while a backup runs is abandoned without verdict); because `weed backup` preallocates a hard-coded 30 GiB for a locally compacted volume file, the backup commands that will compact run one at a time per machine (flock) and the unwritten blocks beyond the end of the backup files are released after each run (file contents untouched); empty payloads (listed C03/C04 items) and TTL volumes are not generated")
 	vlib.Main(m)
 }
 
@@ -188,15 +188,22 @@ func (e *env) fileBase(dir string) string {
 }
 
 // runBackup executes the real command once.
-func (e *env) runBackup() {
+func (e *env) runBackup(src syncStatus) {
 	for attempt := 0; ; attempt++ {
+		// The 30 GiB preallocation (see lockBackup) happens only in the command's local-compaction
+		// branch, taken when the local copy's compaction revision is older than the source's.
+		// Only those runs need the machine-wide lock.
+		willCompact := uint32(e.backupRev()) < src.rev
 		cmd := exec.Command(vlib.WeedBinary(), "-logtostderr=true", "backup", "-server="+e.c.MasterAddr(),
 			"-dir="+e.backupDir, fmt.Sprintf("-volumeId=%d", e.vid), "-collection="+e.col)
 		cmd.Dir = e.workDir
 		cmd.Env = append(os.Environ(), "HOME="+e.workDir)
 		var stdout, stderr bytes.Buffer
 		cmd.Stdout, cmd.Stderr = &stdout, &stderr
-		unlock := lockBackup(e.t)
+		unlock := func() {}
+		if willCompact {
+			unlock = lockBackup(e.t)
+		}
 		err := cmd.Run()
 		e.releasePreallocation()
 		unlock()
@@ -225,7 +232,7 @@ func (e *env) runBackup() {
 
 // `weed backup` preallocates a hard-coded 30 GiB (fallocate, KEEP_SIZE) for the volume file
 // whenever it compacts its local copy, and the blocks stay with the backup's .dat file. On a
-// shared scratch disk that is fatal with several shards, so only one backup command runs at
+// shared scratch disk that is fatal with several shards, so only one compacting backup command runs at
 // a time on this machine (flock) and the blocks beyond the end of the file are given back as
 // soon as it returns (truncate to the file's own size; no byte of the file changes).
 func lockBackup(t fataler) (unlock func()) {
@@ -241,6 +248,21 @@ func lockBackup(t fataler) (unlock func()) {
 		syscall.Flock(int(f.Fd()), syscall.LOCK_UN)
 		f.Close()
 	}
+}
+
+// backupRev is the compaction revision in the backup's super block (0 = no volume file yet,
+// which is also what a newly created local volume gets).
+func (e *env) backupRev() uint16 {
+	f, err := os.Open(e.fileBase(e.backupDir) + ".dat")
+	if err != nil {
+		return 0
+	}
+	defer f.Close()
+	var h [8]byte
+	if _, err := io.ReadFull(f, h[:]); err != nil {
+		return 0
+	}
+	return uint16(h[4])<<8 | uint16(h[5])
 }
 
 func (e *env) releasePreallocation() {
@@ -716,7 +738,7 @@ func (r *runner) backup() {
 	if r.backups > 0 && !r.changedSince && src.rev == r.revAtBackup {
 		r.class("backup-without-change")
 	}
-	e.runBackup()
+	e.runBackup(src)
 	if after := e.status(); after.rev != src.rev {
 		// the source was compacted while the backup ran: not a sequential history (nobody in
 		// the history asked for it); no verdict for this case
